@@ -1322,8 +1322,10 @@ class Server:
         async def mlsd_worker(self, connection, rest):
             stream = connection.data_connection
             del connection.data_connection
-            # another USER changes limits of connection, not of this transfer
-            stream.throttles = dict(stream.throttles)
+            # limits of transfer are those in force when its command was
+            # accepted: another USER (also one sent while this worker was
+            # waiting for data connection) changes limits of connection
+            stream.throttles = throttles
             async with stream:
                 async for path in connection.path_io.list(real_path):
                     s = await self.build_mlsx_string(connection, path)
@@ -1333,6 +1335,7 @@ class Server:
             return True
 
         real_path, virtual_path = self.get_paths(connection, rest)
+        throttles = dict(connection.command_connection.throttles)
         coro = mlsd_worker(self, connection, rest)
         task = asyncio.create_task(coro)
         connection.extra_workers.add(task)
@@ -1383,8 +1386,10 @@ class Server:
         async def list_worker(self, connection, rest):
             stream = connection.data_connection
             del connection.data_connection
-            # another USER changes limits of connection, not of this transfer
-            stream.throttles = dict(stream.throttles)
+            # limits of transfer are those in force when its command was
+            # accepted: another USER (also one sent while this worker was
+            # waiting for data connection) changes limits of connection
+            stream.throttles = throttles
             async with stream:
                 async for path in connection.path_io.list(real_path):
                     if not (await connection.path_io.exists(path)):
@@ -1397,6 +1402,7 @@ class Server:
             return True
 
         real_path, virtual_path = self.get_paths(connection, rest)
+        throttles = dict(connection.command_connection.throttles)
         coro = list_worker(self, connection, rest)
         task = asyncio.create_task(coro)
         connection.extra_workers.add(task)
@@ -1463,8 +1469,10 @@ class Server:
         async def stor_worker(self, connection, rest):
             stream = connection.data_connection
             del connection.data_connection
-            # another USER changes limits of connection, not of this transfer
-            stream.throttles = dict(stream.throttles)
+            # limits of transfer are those in force when its command was
+            # accepted: another USER (also one sent while this worker was
+            # waiting for data connection) changes limits of connection
+            stream.throttles = throttles
             if restart_offset:
                 file_mode = "r+b"
             else:
@@ -1479,6 +1487,7 @@ class Server:
             return True
 
         real_path, virtual_path = self.get_paths(connection, rest)
+        throttles = dict(connection.command_connection.throttles)
         # restart offset is for this transfer only
         restart_offset = connection.restart_offset
         connection.restart_offset = 0
@@ -1513,8 +1522,10 @@ class Server:
         async def retr_worker(self, connection, rest):
             stream = connection.data_connection
             del connection.data_connection
-            # another USER changes limits of connection, not of this transfer
-            stream.throttles = dict(stream.throttles)
+            # limits of transfer are those in force when its command was
+            # accepted: another USER (also one sent while this worker was
+            # waiting for data connection) changes limits of connection
+            stream.throttles = throttles
             file_in = connection.path_io.open(real_path, mode="rb")
             async with stream, file_in:
                 if restart_offset:
@@ -1525,6 +1536,7 @@ class Server:
             return True
 
         real_path, virtual_path = self.get_paths(connection, rest)
+        throttles = dict(connection.command_connection.throttles)
         # restart offset is for this transfer only
         restart_offset = connection.restart_offset
         connection.restart_offset = 0
